@@ -4,7 +4,8 @@
       (calendar_dir.rs [CalendarDir::add_zone_range] is the same loop),
     - src/engine/core/time/zone_temporal_index.rs [ZoneTemporalIndex] (stride as regenerated),
     - src/engine/core/time/temporal_builder.rs [build_for_zone_plans] (one temporal field),
-    - src/engine/core/zone/selector/pruner/temporal_pruner.rs [apply_temporal_only].
+    - src/engine/core/zone/selector/pruner/temporal_pruner.rs [apply_temporal_only]
+      (as repaired by db7c428: signed probe instant, pre-1970 zones filed from bucket 0).
     Executable definitions only.
 
     Timestamps of a zone are [Z] in the i64 range (what [as_i64] / [u as i64] pushed).
@@ -113,25 +114,33 @@ Definition tindex_empty : tindex := {| t_cal := None; t_ztis := [] |}.
 Definition zmin_list (l : list Z) : Z := fold_right Z.min (hd 0 l) l.
 Definition zmax_list (l : list Z) : Z := fold_right Z.max (hd 0 l) l.
 
-(** one zone: nothing when the zone has no value for the field; else a per-zone index,
-    and a calendar range only when both [min] and [max] are non-negative *)
-Definition add_zone (ix : tindex) (zid : N) (vals : list Z) : tindex :=
+(** the calendar range registered for a zone with extreme values [mn], [mx] (i64).
+    [mode] (regenerated per branch of the builder): 0 = only when [mn >= 0 && mx >= 0],
+    else the zone is left out of the calendar; 1 = always, clamped at 0
+    ([min_ts.max(0) as u64], [max_ts.max(0) as u64]). *)
+Definition cal_range (mode : N) (mn mx : Z) : option (N * N) :=
+  match mode with
+  | 0%N => if (0 <=? mn) && (0 <=? mx) then Some (Z.to_N mn, Z.to_N mx) else None
+  | _ => Some (Z.to_N (Z.max mn 0), Z.to_N (Z.max mx 0))
+  end.
+
+(** one zone: nothing when the zone has no value for the field; else a per-zone index
+    and (see [cal_range]) a calendar range *)
+Definition add_zone (mode : N) (ix : tindex) (zid : N) (vals : list Z) : tindex :=
   match vals with
   | [] => ix
   | _ =>
       let ztis := t_ztis ix ++ [(zid, from_timestamps vals)] in
-      let mn := zmin_list vals in
-      let mx := zmax_list vals in
-      if negb zidx_cal_requires_nonneg || ((0 <=? mn) && (0 <=? mx)) then
-        let c := match t_cal ix with Some c => c | None => cal_empty end in
-        (* [as u64] of a possibly negative i64 when the guard is absent *)
-        {| t_cal := Some (add_zone_range c zid (Z.to_N (mn mod 2 ^ 64)) (Z.to_N (mx mod 2 ^ 64)));
-           t_ztis := ztis |}
-      else {| t_cal := t_cal ix; t_ztis := ztis |}
+      match cal_range mode (zmin_list vals) (zmax_list vals) with
+      | Some (lo, hi) =>
+          let c := match t_cal ix with Some c => c | None => cal_empty end in
+          {| t_cal := Some (add_zone_range c zid lo hi); t_ztis := ztis |}
+      | None => {| t_cal := t_cal ix; t_ztis := ztis |}
+      end
   end.
 
-Definition build (zones : list (N * list Z)) : tindex :=
-  fold_left (fun ix zv => add_zone ix (fst zv) (snd zv)) zones tindex_empty.
+Definition build (mode : N) (zones : list (N * list Z)) : tindex :=
+  fold_left (fun ix zv => add_zone mode ix (fst zv) (snd zv)) zones tindex_empty.
 
 (** The values the builder pushes for a payload cell: [as_i64] (Int64, Timestamp, a
     string that parses as i64), else [as_u64 as i64] (a string that parses as u64 only);
@@ -182,29 +191,28 @@ Definition cell_ts (c : tcell) : option Z :=
 Definition zone_ts (cells : list tcell) : list Z :=
   flat_map (fun c => match cell_ts c with Some t => [t] | None => [] end) cells.
 Definition build_cells (zones : list (N * list tcell)) : tindex :=
-  build (map (fun zc => (fst zc, zone_ts (snd zc))) zones).
+  build zidx_cal_mode_field (map (fun zc => (fst zc, zone_ts (snd zc))) zones).
 (** the fixed [timestamp] column: [ev.timestamp as i64] *)
 Definition build_fixed (zones : list (N * list N)) : tindex :=
-  build (map (fun zc => (fst zc, map (fun n => to_i64 (Z.of_N n)) (snd zc))) zones).
+  build zidx_cal_mode_ts (map (fun zc => (fst zc, map (fun n => to_i64 (Z.of_N n)) (snd zc))) zones).
 
-Definition clamp_u64 (z : Z) : N :=
-  if zidx_clamp_negative then Z.to_N (Z.max z 0) else Z.to_N (z mod 2 ^ 64).
-
-(** the [ts : u64] the pruner probes with *)
-Definition lit_ts (l : tlit) : N :=
+(** the signed instant [ts : i64] the pruner probes the per-zone indexes with: an integer
+    literal as is, a string through [TimeParser] and [i64::MIN] when it is not a time
+    literal, any other kind 0 *)
+Definition lit_ts (l : tlit) : Z :=
   match l with
-  | TLInt z => clamp_u64 z
+  | TLInt z => z
   | TLStr s =>
       match parse_str_to_epoch_seconds s with
-      | Some p => clamp_u64 p
-      | None => match parse_u64 s with Some u => u | None => 0%N end
+      | Some p => p
+      | None => - 2 ^ 63
       end
-  | TLFloat _ _ => 0%N
-  | TLOther => 0%N
+  | TLFloat _ _ => 0
+  | TLOther => 0
   end.
 
-(** [ts as i64] *)
-Definition lit_ts_i64 (l : tlit) : Z := to_i64 (Z.of_N (lit_ts l)).
+(** [cal_ts = ts.max(0)]: the calendar lookup is clamped at 0 *)
+Definition cal_ts (v : Z) : Z := Z.max v 0.
 
 Definition zone_overlaps (op : cmp_op) (x : zti) (v : Z) : bool :=
   match op with
@@ -228,7 +236,7 @@ Definition op_answered (op : cmp_op) : bool :=
 Definition apply_temporal_only (is_timestamp : bool) (ix : tindex) (op : cmp_op) (l : tlit)
   : option (list N) :=
   if negb (op_answered op) then None else
-  let v := lit_ts_i64 l in
+  let v := lit_ts l in
   match t_cal ix with
   | None => if is_timestamp then Some [] else None
   | Some c =>
@@ -236,13 +244,13 @@ Definition apply_temporal_only (is_timestamp : bool) (ix : tindex) (op : cmp_op)
                                | Some x => zone_overlaps op x v
                                | None => false
                                end)
-                   (zones_intersecting c op v))
+                   (zones_intersecting c op (cal_ts v)))
   end.
 
 (** What a query sees for strategies [TemporalEq] / [TemporalRange]. *)
 Definition select_temporal (is_timestamp : bool) (ix : tindex) (all_zones : list N)
                            (op : cmp_op) (l : tlit) : list N :=
-  select STemporal false all_zones (apply_temporal_only is_timestamp ix op l).
+  select STemporal op false all_zones (apply_temporal_only is_timestamp ix op l).
 
 (** * Brute-force meaning of a probe *)
 
@@ -254,7 +262,7 @@ Definition lit_value (l : tlit) : option litval :=
   | TLStr s =>
       match parse_str_to_epoch_seconds s with
       | Some p => Some (LVInt p)
-      | None => match parse_u64 s with Some u => Some (LVInt (Z.of_N u)) | None => None end
+      | None => None      (* not a time literal: no instant *)
       end
   | TLFloat n d => Some (LVRat n d)
   | TLOther => None
